@@ -358,7 +358,7 @@ func execTrace(p TProg) (*thist, func()) {
 	var s0 [4]handle
 	for i := 0; i < p.Pre; i++ {
 		h.pre[i].G, h.pre[i].I = -1, i
-		do(TOp{K: "start", X: i, T: -1}, &h.pre[i], &s0)
+		guard(&h.pre[i], func() { do(TOp{K: "start", X: i, T: -1}, &h.pre[i], &s0) })
 	}
 	h.gs = make([][]callRec, len(p.Gs))
 	for g := range p.Gs {
@@ -369,7 +369,7 @@ func execTrace(p TProg) (*thist, func()) {
 		for i, op := range p.Gs[g] {
 			vk.Perturb(op.P)
 			h.gs[g][i].G, h.gs[g][i].I = g, i
-			do(op, &h.gs[g][i], &slots)
+			guard(&h.gs[g][i], func() { do(op, &h.gs[g][i], &slots) })
 		}
 	}
 	if len(p.Gs) == 1 {
@@ -381,7 +381,7 @@ func execTrace(p TProg) (*thist, func()) {
 	var ps [4]handle
 	for i, op := range p.Post {
 		h.post[i].G, h.post[i].I = -2, i
-		do(op, &h.post[i], &ps)
+		guard(&h.post[i], func() { do(op, &h.post[i], &ps) })
 	}
 	return h, func() {
 		_ = tp.Shutdown(context.Background())
@@ -473,7 +473,7 @@ const (
 )
 
 func oracleTraceSeq(h *thist) ([]vk.Violation, map[string]bool) {
-	var vs []vk.Violation
+	vs := panicViolations(h.calls())
 	cl := map[string]bool{}
 	bad := func(kind, format string, a ...any) { vs = append(vs, vk.V(kind, format, a...)) }
 	p := h.p
@@ -819,7 +819,7 @@ var tKinds = func() []string {
 	for _, kw := range []struct {
 		k string
 		w int
-	}{{"reg", 8}, {"unreg", 8}, {"unreg_nil", 1}, {"unreg_odd", 1}, {"tracer", 3}, {"start", 10}, {"end", 10}, {"flush", 4}, {"shutdown", 4}} {
+	}{{"reg", 8}, {"unreg", 8}, {"unreg_nil", 1}, {"unreg_odd", 1}, {"tracer", 3}, {"start", 10}, {"end", 10}, {"flush", 4}, {"shutdown", 5}} {
 		for i := 0; i < kw.w; i++ {
 			out = append(out, kw.k)
 		}
@@ -903,7 +903,8 @@ func genInit(t *rapid.T) []int {
 
 func genTraceSeq(t *rapid.T) TProg {
 	p := TProg{Init: genInit(t)}
-	p.Gs = [][]TOp{rapid.SliceOfN(genRawTOp(false), 1, 60).Draw(t, "ops")}
+	minLen := rapid.SampledFrom([]int{1, 1, 12, 25}).Draw(t, "min_ops")
+	p.Gs = [][]TOp{rapid.SliceOfN(genRawTOp(false), minLen, 60).Draw(t, "ops")}
 	normaliseT(&p)
 	return p
 }
@@ -998,7 +999,7 @@ func TestTraceMembership(t *testing.T) {
 		Property: "C15", Check: "trace_membership",
 		Rule: "generated op lists (1-60 ops: Register / Unregister of members, non-members, nil and a never-registered processor of non-comparable type / Tracer / Start / End / ForceFlush / Shutdown with live or already-cancelled contexts, repeated) on a TracerProvider built with 0-4 of a pool of 8 processors (4 recording ones, one of them failing, simple and batch processors around a recording exporter and around nil), each processor registered at most once; exact model of the ordered membership; " +
 			"non-trivial = the program unregisters a non-member or a middle member while the provider is up and makes a Start/End call after a Shutdown with a live context returned nil; distinct = distinct case encodings",
-		Quick: 8000, Thorough: 100000,
+		Quick: 6000, Thorough: 80000,
 		Gen: genTraceSeq, Run: runTraceSeq, Known: knownTrace,
 		CaseTimeout: 30 * time.Second,
 	})
